@@ -25,6 +25,10 @@ fn main() {
             if let Some(d) = derives(&args[3]) {
                 settings.derives = d;
             }
+            // optional user context type (C16: the same settings through every route)
+            if let Ok(ctx) = std::env::var("VERIF_CTX") {
+                settings.set_user_context_type(&ctx);
+            }
             let r = match Grammar::from_str(&text) {
                 Err(e) => Err(format!("parse error at {}: {:?}", e.position, e.specifics)),
                 Ok(g) => g.generate_code(&settings).map_err(|e| format!("{e:#}")),
@@ -41,8 +45,17 @@ fn main() {
         }
         "compile" => {
             let mut c = Compile::file(&args[2]).destination(&args[4]);
+            // the builder calls in either order must give the same settings
+            let ctx = std::env::var("VERIF_CTX").ok();
+            let ctx_first = std::env::var("VERIF_CTX_ORDER").map(|o| o == "first").unwrap_or(false);
+            if let (Some(t), true) = (&ctx, ctx_first) {
+                c = c.user_context_type(t);
+            }
             if let Some(d) = derives(&args[3]) {
                 c = c.derives(d);
+            }
+            if let (Some(t), false) = (&ctx, ctx_first) {
+                c = c.user_context_type(t);
             }
             if let Some(p) = args.get(5) {
                 c = c.prefix(p.clone());
